@@ -106,7 +106,11 @@ func (w *World) probeIdle() bool {
 	}
 	if !w.taskDone(pr.task) {
 		if b := w.S.Blocked(); len(b) > 0 {
-			w.fail("deadlock", "deadlock", "probe blocked forever: %s", taskNames(b))
+			if w.armed("C18") {
+				w.fail("C18.wedged", "wedged", "a follow-up ordinary operation can never complete, blocked on locks: %s", taskNames(b))
+			} else {
+				w.fail("deadlock", "deadlock", "probe blocked forever: %s", taskNames(b))
+			}
 			return false
 		}
 		return true
